@@ -7,11 +7,16 @@ SPEC = Spec(
         Harness(name="fanout", module="internal/fanoutconsumer", pkg="internal/fanoutconsumer",
                 files={"zz_verif_c06_fanout_test.go": "c06/fanout_test.go"},
                 test="TestVerifC06Fanout", driver="drv_c06", n={"quick": 400, "thorough": 4000}),
+        Harness(name="router", module="connector", pkg="connector",
+                files={"zz_verif_c06_router_test.go": "c06/router_test.go"},
+                test="TestVerifC06Router", driver="drv_c06", n={"quick": 300, "thorough": 3000}),
         Harness(name="graph", module="service", pkg="service/internal/graph",
                 files={"zz_verif_c06_graph_test.go": "c06/graph_test.go"},
                 test="TestVerifC06Graph", driver="drv_c06", n={"quick": 400, "thorough": 5000}),
     ],
-    rule="fanout: random capability vectors (1-7 consumers), read-only/mutable input, failure patterns, synchronous and asynchronous "
+    rule="router: connector.New{Logs,Metrics,Traces}Router(...).Consumer(selected pipelines...) on random pipeline sets and selections "
+         "(half of them a single pipeline), read-only/mutable input, plus every capability vector <= 3 x every single selection; "
+         "compared with the same fan-out model. fanout (one consumer may cancel the request context while it is served): random capability vectors (1-7 consumers), read-only/mutable input, failure patterns, synchronous and asynchronous "
          "writers, one undeclared writer, on the real fan-out of all four signals, plus EXHAUSTIVE capability vectors of length <= 5 "
          "(quick) / <= 8 (thorough) x input mode x undeclared-writer position; non-trivial = mixed mutating/non-mutating vector. "
          "graph: random two-level topologies built by the real graph.Build (1-4 pipelines from one receiver, optional same-signal "
